@@ -297,7 +297,10 @@ def run(repo: Repo, rep: Report, tier: str) -> None:
         rep.violation("R05.8", fi.key, f"reordering call {reorder[0]}", "field blocks must be emitted in declaration order: the first bad field decides the exception", loc=fi.loc)
     else:
         rep.ok("R05.8", "no sort/reverse/set-iteration on the from_dict generation path", {"function": fi.key})
-
+    # rules of sibling properties that are necessary conditions of this one as well (same rule ids)
+    from ..core.report import Only
+    from . import c12 as _c12
+    _c12.run(repo, Only(rep, {"R12.1c"}), tier)
 
 def _fieldless(repo: Repo, rep: Report) -> None:
     fi = repo.func(M_BUILDER, "CodeBuilder._add_unpack_method_lines")
